@@ -172,6 +172,13 @@ def check_cds_view(ctx, A, B, spec, cs, ce, g, what="cds", cst="+"):
         ctx.eq(what + ":chunk_view_first:chunk_relative_codons", got3, inside_codons)
         ctx.eq(what + ":chunk_view_first:num_codons", B3.num_codons, len(model))
         ctx.eq(what + ":chunk_view_first:chromosome_codons", codon_triples(B3.chromosome_codon_locations), model)
+        if any_inside:
+            # ... and the sequence of the object whose codon locations were read first is still the codons inside the window
+            seqs3 = [rm.seq_image(g, c, strand).upper() for c in inside_codons]
+            ctx.eq(what + ":chunk_view_first:extract_sequence", str(B3.extract_sequence()).upper(), "".join(seqs3))
+            ctx.eq(what + ":chunk_view_first:extract_sequence_again", str(B3.extract_sequence()).upper(), "".join(seqs3))
+            if cst == "-":
+                ctx.label("codons_read_before_sequence_on_minus_chunk")
     except BioCantorException as e:
         ctx.fail(what + ":chunk_view_first_raises", {"exc": repr(e)[:120], "any_inside": any_inside})
     seqs = [rm.seq_image(g, c, strand).upper() for c in inside_codons]
